@@ -105,6 +105,24 @@ def main():
     out[name] = scenario(contextual_inside_line)
     classes[name] = 'F-C03e'
 
+    def contextual_after_worker_thread():
+        import threading
+        p = line_profiler.LineProfiler()
+        c = kernprof.ContextualProfile()
+
+        @p
+        def in_thread():
+            return 1
+
+        @c
+        def g():
+            return 'fine'
+        t = threading.Thread(target=in_thread)
+        t.start()
+        t.join()
+        return g()
+    out['ContextualProfile-decorated call after a LineProfiler-decorated call finished in a worker thread'] = scenario(contextual_after_worker_thread)
+
     # ---- keyword arguments: "same results and raised exceptions for all arguments" includes every keyword name, in particular the names the
     # wrappers use for their own parameters and locals (collected from the code objects of the profiler classes, so new helpers are covered)
     import functools
